@@ -260,6 +260,30 @@ func (p *C12) Generate(seed uint64, run int) *Case {
 		}
 	})
 	if r.Chance(1, 3) {
+		// whoever consumes the result is slow (a pager, a sleeping reader behind
+		// a full pipe, a network file system): same bytes, same status
+		add("outpath:slow", func(st *Step) {
+			wp := &simrt.WritePlan{DelaysUs: GenDelays(r)}
+			if r.Chance(1, 2) {
+				st.Stdout = wp
+				st.Note = "stdout:slow"
+			} else {
+				st.Argv = append(st.Argv, "-o", outPath)
+				st.Files = cloneFiles(st.Files)
+				st.Files[outPath] = &simrt.FileSpec{WritePlan: wp}
+			}
+			st.SchedPolicy = model.Pick(r, schedPolicies)
+		})
+	}
+	if r.Chance(1, 3) {
+		// the log is read slowly (stderr to a pager or a slow terminal)
+		add("debug:slow-log", func(st *Step) {
+			st.Argv = append([]string{"--debug"}, st.Argv...)
+			st.Stderr = &simrt.WritePlan{DelaysUs: GenDelays(r)}
+			st.SchedPolicy = model.Pick(r, schedPolicies)
+		})
+	}
+	if r.Chance(1, 3) {
 		add("maporder+outpath", func(st *Step) {
 			st.Argv = append(st.Argv, "-o", outPath)
 			st.MapPolicy = "shuffle"
@@ -378,8 +402,20 @@ func resultBytes(st *Step, r *Result) []byte {
 	return r.Stdout
 }
 
+func cloneFiles(m map[string]*simrt.FileSpec) map[string]*simrt.FileSpec {
+	out := map[string]*simrt.FileSpec{}
+	for k, v := range m {
+		out[k] = v
+	}
+	return out
+}
+
 func dimOf(note string) string {
 	switch {
+	case strings.HasPrefix(note, "stdout"):
+		return "stdout"
+	case strings.HasPrefix(note, "debug"):
+		return "debug"
 	case strings.HasPrefix(note, "inpath"):
 		return "inpath"
 	case strings.HasPrefix(note, "outpath"):
